@@ -309,7 +309,7 @@ func bump(k string) {
 
 // renderCheck renders one document with the real renderer, parses the HTML like a browser (x/net/html: character
 // references in attribute values are decoded exactly once) and applies the oracle. ok=false: panic / render error.
-func renderCheck(doc string) (fs []finding, ok bool) {
+func renderCheck(doc string) (fs []finding, feats map[string]bool, ok bool) {
 	var out []byte
 	var err error
 	if rec := vk.Catch(func() { out, err = render([]byte(doc)) }); rec != nil {
@@ -317,12 +317,12 @@ func renderCheck(doc string) (fs []finding, ok bool) {
 		panics.Add(1)
 		bump("renderer-panic")
 		r.Sample(map[string]any{"renderer_panic": fmt.Sprint(rec), "doc": doc})
-		return nil, false
+		return nil, nil, false
 	}
 	r.Eval()
 	if err != nil {
 		renderErr.Add(1)
-		return nil, false
+		return nil, nil, false
 	}
 	h := sha256.Sum256(out)
 	r.Distinct(string(h[:]))
@@ -330,7 +330,7 @@ func renderCheck(doc string) (fs []finding, ok bool) {
 	if perr != nil {
 		r.HarnessError("x/net/html cannot parse output of %q: %v", doc, perr)
 	}
-	feats := map[string]bool{}
+	feats = map[string]bool{}
 	fs = check(nodes, feats)
 	for k := range feats {
 		if strings.HasPrefix(k, "el:") {
@@ -342,7 +342,7 @@ func renderCheck(doc string) (fs []finding, ok bool) {
 		}
 		bump(k)
 	}
-	return fs, true
+	return fs, feats, true
 }
 
 func bumpN(k string, n int64) {
@@ -358,7 +358,7 @@ func evalSeq(seq []int) {
 		sb.WriteString(alphabet[i])
 	}
 	doc := sb.String()
-	fs, ok := renderCheck(doc)
+	fs, _, ok := renderCheck(doc)
 	if !ok {
 		return
 	}
@@ -442,7 +442,7 @@ func main() {
 		f, _ := os.Create(*prof)
 		pprof.StartCPUProfile(f)
 	}
-	r.SetBudget(80*time.Second, 25*time.Minute)
+	r.SetBudget(90*time.Second, 25*time.Minute)
 	if *one != "" {
 		out, err := render([]byte(*one))
 		fmt.Printf("err=%v\n%s\n", err, out)
